@@ -48,6 +48,31 @@ def _main_loop(f):
     return loops[0]
 
 
+def no_bypass(rep, rule, f, loop, what):
+    """Every iteration of the event loop runs to the end of the body: a `continue` (or a `break` before the clock) that
+    belongs to the event loop itself skips the statements at its tail - the next waiting time and the clock update."""
+    own = []
+
+    def walk(stmts):
+        for st in stmts:
+            if isinstance(st, ast.Continue):
+                own.append(st)
+            elif isinstance(st, (ast.For, ast.While, ast.FunctionDef, ast.ClassDef)):
+                continue          # continue / break inside belong to the inner loop
+            else:
+                for fld in ("body", "orelse", "finalbody"):
+                    b = getattr(st, fld, None)
+                    if isinstance(b, list):
+                        walk(b)
+                for h in getattr(st, "handlers", []) or []:
+                    walk(h.body)
+    walk(loop.body)
+    rep.ob(rule, not own, "%s: every event runs to the end of the loop body (%s)" % (f.name, what), func=f, node=own[0] if own else loop,
+           construct="continue statements of the event loop: %d" % len(own),
+           detail="" if not own else "a `continue` in the event loop skips the tail of the iteration (%s): the clock does not advance "
+           "after such an event" % what)
+
+
 # ---------------------------------------------------------------------------
 # Gillespie_SIR / Gillespie_SIS
 # ---------------------------------------------------------------------------
@@ -301,6 +326,7 @@ def rate_consistency_sir_sis(repo, rep, name):
     f = repo.f(name)
     rep.analysed(f)
     loop = _main_loop(f)
+    no_bypass(rep, "RATE", f, loop, "rate recomputation and the next waiting time")
     evif = [s for s in loop.body if isinstance(s, ast.If)][0]
     # which arm samples which set
     def arm_sets(body):
@@ -464,6 +490,7 @@ def simple_contagion_rule(repo, rep):
     rep.analysed(f)
     loop = _main_loop(f)
     ctxs = contexts_by_node(f.node)
+    no_bypass(rep, "RATE", f, loop, "candidate bookkeeping, total rate and the next waiting time")
     # ---- event application
     sw = [s for s in loop.body if isinstance(s, ast.Assign) and isinstance(s.targets[0], ast.Subscript)
           and _key(s.targets[0].value) == "status"]
@@ -860,6 +887,7 @@ def complex_contagion_rule(repo, rep):
     ok = ("%s>0" % tw, True) in facts and ("t<tmax", True) in facts and len(facts) == 2
     rep.ob("R11c", ok, "complex contagion: runs exactly while some rate is positive and t < tmax", func=f, node=loop,
            construct="while %s" % short(loop.test), detail="" if ok else "loop condition changed")
+    no_bypass(rep, "R11c", f, loop, "re-rating, then the next waiting time and t += delay")
     # clock draws: argument is the current total, guarded by > 0
     clocks = [c for c in ast.walk(f.node) if isinstance(c, ast.Call) and _key(c.func) == "random.expovariate"]
     okc = len(clocks) == 2
